@@ -99,11 +99,12 @@ var props = []Prop{
 	{
 		ID:         "C07",
 		Level:      "exploration",
-		Rule:       "The hash seeds (arr-ai/hash and frozen's private copy) are set from one integer per worker process through the aaseed seam. One run draws base values of 9-24 members (ints, floats incl. 1e16/-1e16, strings, two relations, two dicts, two tuples) and 4-10 independent expressions from a catalogue of the data fragment (printing, //str.repr, interpolation, orderby/order/rank with injective keys only, set->array/string/bytes conversions with colliding and distinct indices, sum/mean/max/min/median, nest, joins, +>, |, &, set patterns, cond, //rel.union, //seq.*, json/yaml encoders, //tuple, //dict, multi-valued calls). The same run is evaluated by K worker processes with K different hash seeds (K=4 quick, 8 thorough; different seed sets per worker group) and, per expression, the stdout bytes of arrai.OutputValue, fu.Repr and the value/error bit are compared; error texts are not. Each worker also evaluates every expression twice (same-seed stability). Excluded by construction: //os, //net, //log, remote imports, NaN, orderby/order/rank with possibly tied keys (the documented exemption). Non-trivial = every run; distinct = distinct multiset of expression features; distinct_states counts distinct enumeration orders of a fixed 64-member probe set and 16-attribute probe tuple (proves the seeds permute).",
+		Rule:       "The hash seeds (arr-ai/hash and frozen's private copy) are set from one integer per worker process through the aaseed seam. One run draws base values of 9-24 members (ints, floats incl. 1e16/-1e16, strings, two relations, two dicts, two tuples) and 4-10 independent expressions from a catalogue of the data fragment (printing, //str.repr, interpolation, orderby/order/rank with injective keys only, set->array/string/bytes conversions with colliding and distinct indices, sum/mean/max/min/median, nest, joins, +>, |, &, set patterns, cond, //rel.union, //seq.*, json/yaml encoders, //tuple, //dict, multi-valued calls). The same run is evaluated by K worker processes with K different hash seeds (K=4 quick, 8 thorough; different seed sets per worker group) and, per expression, the stdout bytes of arrai.OutputValue, fu.Repr and the value/error bit are compared; error texts are not. Each worker also evaluates every expression twice (same-seed stability). Batch corpus: the offline-evaluable .arrai sources shipped in the repository (examples, contrib, docs, stdlib; no //os, //net, //log, remote imports) evaluated whole under the same K seeds. Excluded by construction: //os, //net, //log, remote imports, NaN, orderby/order/rank with possibly tied keys (the documented exemption). Non-trivial = every run; distinct = distinct multiset of expression features; distinct_states counts distinct enumeration orders of a fixed 64-member probe set and 16-attribute probe tuple (proves the seeds permute).",
 		Components: map[string][]string{"real": {"syntax (parser, compiler, evaluator, stdlib)", "rel (all values, printing)", "pkg/arrai.OutputValue, pkg/fu.Repr", "github.com/arr-ai/hash and frozen/internal/pkg/hash with seeds set by the harness before any value exists"}, "stub": {}},
 		Assume:     []string{"Go built-in map iteration order and fastrand are not steerable; they are only sampled (every expression is evaluated twice per process)", "expressions are evaluated separately so that a disagreement is attributed to one construct"},
 		Batches: []Batch{
 			{Name: "xseed", Engine: "seeds", Kind: "xseed", XSeedK: [2]int{4, 8}, Quick: 1200, Thorough: 60000, Timeout: 120 * time.Second},
+			{Name: "corpus", Engine: "seeds", Kind: "xseed", XSeedK: [2]int{4, 8}, Quick: 60, Thorough: 600, Knobs: map[string]string{"mode": "corpus"}, Timeout: 120 * time.Second},
 		},
 	},
 }
